@@ -153,6 +153,10 @@ Definition hist_step (hasf : list bool) (a : hacc) (rin : round_in) (rob : value
                     (Some (map co_post mobs),
                      (cls =? 0) && (off =? moff) && (ncons =? consumed (ri_tape rin) rest)
                      && all2 (fun hm o => cl_agree (fst hm) (snd hm) o) (combine hasf mobs) os)
+                | RNoMeas mobs rest =>
+                    (Some (map co_post mobs),
+                     (cls =? 4) && (ncons =? consumed (ri_tape rin) rest)
+                     && all2 (fun hm o => cl_agree (fst hm) (snd hm) o) (combine hasf mobs) os)
                 | RNoPath post resets rest =>
                     (Some post,
                      (cls =? 1) && (ncons =? consumed (ri_tape rin) rest)
